@@ -4,7 +4,7 @@ from .common import declare
 
 RULES = ['MODE-PRESERVED', 'LOOP-FALLBACK', 'CONFLICT-RAISES', 'INHERIT', 'LOOP-USE-ENSURES', 'CTOR-CHAINS', 'THREAD-SITE',
          'SCHEDULE-ON-SELF-LOOP']
-FLOORS = {'MODE-PRESERVED': 2, 'LOOP-FALLBACK': 1, 'CONFLICT-RAISES': 6, 'INHERIT': 2, 'LOOP-USE-ENSURES': 25, 'CTOR-CHAINS': 40,
+FLOORS = {'MODE-PRESERVED': 2, 'LOOP-FALLBACK': 1, 'CONFLICT-RAISES': 6, 'INHERIT': 2, 'LOOP-USE-ENSURES': 20, 'CTOR-CHAINS': 40,
           'THREAD-SITE': 3, 'SCHEDULE-ON-SELF-LOOP': 1}
 
 META = {
